@@ -33,7 +33,9 @@ def gen_dir(rng, nbases=None, defect=None):
         files[p] = component_from(rng, 'component %d description' % ci, zs, harm, kinds, refkeys)
         pool.append((p, zs, kinds))
     for bi in range(nbases):
-        base = 'basis%d' % bi
+        # file bases of which one is a proper prefix of another in the same sub-directory ('basis' / 'basis20' in fam0): the index
+        # builder must tell their files apart by the full 'base.' prefix
+        base = ['basis', 'basis2', 'basis20', 'basis1'][bi] if bi < 4 else 'basis%d' % bi
         nm = rng.choice(['Gen-%d' % bi, 'gen/%d*' % bi, 'GEN %d (x)' % bi])
         fam = 'fam%d' % (bi % 2)
         versions = sorted(set(rng.sample(['0', '1', '2'], rng.randrange(1, 3))))
